@@ -40,6 +40,20 @@ class F0(Exception):
     pass
 
 
+class Frozen(E1):
+    """An exception object that refuses attribute assignment once it has
+    been constructed (a frozen dataclass, a __slots__ class, a read-only
+    property would do the same)."""
+    def __init__(self, *a):
+        E1.__init__(self, *a)
+        object.__setattr__(self, '_ready', True)
+
+    def __setattr__(self, name, value):
+        if getattr(self, '_ready', False) and not name.startswith('__'):
+            raise AttributeError('cannot assign to field %r' % name)
+        object.__setattr__(self, name, value)
+
+
 def model(fault, handlers, final_mode):
     """handlers: effective order; each dict(types, behaviour, new_type).
     Returns (calls [(handler id, exc type name)], recorded type name,
@@ -75,7 +89,7 @@ def scenario(run, rng, origin, chain, final_mode, pv, hook_log):
     fault_type = {'reaction-login-disconnect': LoginDisconnect,
                   'reaction-status-json': _json.JSONDecodeError,
                   'decoder': _struct.error}.get(origin) or \
-        rng.choice((E0, E1, E2, F0, KeyError))
+        rng.choice((E0, E1, E2, F0, KeyError, Frozen, Frozen))
     if origin == 'fallback-connect-refused':
         # the negotiation's own recovery (reconnect with the default version
         # after an unanswered status query) fails: the exception raised inside
@@ -243,7 +257,21 @@ def scenario(run, rng, origin, chain, final_mode, pv, hook_log):
                         calls.append((h['id'], 'exc_info-mismatch', exc))
                     if h['behaviour'] == 'raise-new':
                         raise h['new_type']('from handler %s' % h['id'])
+                    import sys as _sys
+                    first_call = len(calls) == 1 and \
+                        origin != 'fallback-connect-refused'
+                    if first_call and _sys.exc_info()[1] is not exc:
+                        # the first handler runs while the original exception
+                        # is being handled: a bare 'raise', traceback.
+                        # format_exc() and sys.exc_info() all refer to it
+                        # (for later handlers, after an earlier one raised,
+                        # the interpreter's state is not specified)
+                        calls.append((h['id'], 'not-the-active-exception',
+                                      exc))
                     if h['behaviour'] == 'raise-same':
+                        if first_call and h.setdefault(
+                                'bare', rng.random() < 0.5):
+                            raise
                         raise exc
                     if h['behaviour'] == 'reconnect':
                         reconnects.append(h['id'])
